@@ -39,8 +39,11 @@ void Interpolation::Compute_Steffen_Coefficients()
 	std::vector<double> dy(N), p(N);
 	for(unsigned int i = 0; i < N; i++)
 	{
+		// Only two points: straight line
+		if(N == 2)
+			p[i] = dy[i] = s[0];
 		// First point
-		if(i == 0)
+		else if(i == 0)
 		{
 			p[i]  = s[i] * (1.0 + h[i] / (h[i] + h[i + 1])) - s[i + 1] * h[i] / (h[i] + h[i + 1]);
 			dy[i] = (Sign(p[i]) + Sign(s[i])) * std::min(1.0 * fabs(s[i]), 0.5 * fabs(p[i]));
@@ -187,6 +190,11 @@ Interpolation::Interpolation(const std::vector<double>& arg_values, const std::v
 	if(x_values.size() != function_values.size())
 	{
 		std::cerr << "Error in libphysica::Interpolation::Interpolation(): Unequal length of argument and function lists: " << x_values.size() << " vs " << function_values.size() << std::endl;
+		std::exit(EXIT_FAILURE);
+	}
+	if(N < 2)
+	{
+		std::cerr << "Error in libphysica::Interpolation::Interpolation(): Interpolation requires at least two points, not " << N << "." << std::endl;
 		std::exit(EXIT_FAILURE);
 	}
 	for(unsigned int i = 1; i < N; i++)
@@ -359,6 +367,15 @@ Interpolation_2D::Interpolation_2D()
 Interpolation_2D::Interpolation_2D(std::vector<double> x_val, std::vector<double> y_val, std::vector<std::vector<double>> func_values, double x_dim, double y_dim, double f_dim)
 : N_x(x_val.size()), N_y(y_val.size()), x_values(x_val), y_values(y_val), function_values(func_values), prefactor(1.0)
 {
+	// Some initial checks
+	bool valid_shape = (function_values.size() == N_x);
+	for(unsigned int i = 0; valid_shape && i < N_x; i++)
+		valid_shape = (function_values[i].size() == N_y);
+	if(!valid_shape)
+	{
+		std::cerr << "Error in libphysica::Interpolation_2D::Interpolation_2D(): Function values are not a table of " << N_x << "x" << N_y << " entries." << std::endl;
+		std::exit(EXIT_FAILURE);
+	}
 	// Transform units
 	if(x_dim > 0.0)
 		for(unsigned int i = 0; i < N_x; i++)
